@@ -216,6 +216,14 @@ func c19NoRecover(c *vlib.Ctx) {
 				for _, b := range cp.BigStretch(seed) {
 					s.one(t, b, "big-stretch")
 				}
+				if si < c.Pick(2, 8) {
+					wl := cp.WordSweepLong(seed, c.Pick(40, 200))
+					for _, b := range wl {
+						s.one(t, b, "word-sweep-long")
+						c.Step()
+					}
+					c.Count("word_sweep_long_variants", len(wl))
+				}
 			}
 			c.End()
 		}
